@@ -285,3 +285,32 @@ Proof.
   match goal with |- nf6 (if ?c then _ else _) => destruct c end; [nf6_const|].
   apply nf6_bind; [apply nf6_log_append|]. intros s3 _. apply nf6_follower_maybe_commit.
 Qed.
+
+(* ---------------------------------------------------------------- votes after the repaired start-up dropped a stale log *)
+Lemma vote_on_empty_log_respects_snapshot s m from li lt :
+  p_log (n_p s) = [] -> p_snap (n_p s) = Some m -> sn_index m <> 0 ->
+  can_grant_vote s from li lt = Ret true ->
+  sn_term m < lt \/ (lt = sn_term m /\ sn_index m <= li).
+Proof.
+  intros Hl Hs Hnz. unfold can_grant_vote.
+  destruct (negb (p_vote (n_p s) =? 0) && negb (p_vote (n_p s) =? from)); [discriminate|].
+  assert (Hli : last_index (n_p s) = sn_index m).
+  { unfold last_index. rewrite Hl, Hs. reflexivity. }
+  rewrite Hli. unfold st_term. rewrite Hli. rewrite N.ltb_irrefl.
+  apply N.eqb_neq in Hnz. rewrite Hnz. rewrite Hl, Hs. simpl. rewrite N.eqb_refl. simpl.
+  intro H. inversion H as [H1]. apply orb_true_iff in H1. destruct H1 as [H1 | H1].
+  - left. apply N.ltb_lt. exact H1.
+  - right. apply andb_true_iff in H1. destruct H1 as [A B]. apply N.eqb_eq in A. apply N.leb_le in B. auto.
+Qed.
+
+(* the repaired start-up on the very state F10 produces (snapshot ahead of a stale well-formed log): the log is dropped *)
+Lemma reconcile_drops_stale_log s m li s1 :
+  log_wf (p_log (n_p s)) -> n_budget s = 0 ->
+  p_snap (n_p s) = Some m -> log_last (p_log (n_p s)) = Some li -> li < sn_index m ->
+  reconcile s = Ret s1 -> p_log (n_p s1) = [] /\ p_snap (n_p s1) = Some m.
+Proof.
+  intros Hwf Hb Hs Hl Hlt. unfold reconcile. rewrite Hs, Hl.
+  destruct (log_last_first_some _ _ Hl) as [fi Hf]. rewrite Hf.
+  apply N.ltb_lt in Hlt. rewrite Hlt. simpl.
+  unfold do_mut. rewrite Hb. simpl. intro H. inversion H. simpl. split; [apply truncate0_wf; exact Hwf | exact Hs].
+Qed.
